@@ -72,6 +72,8 @@ Definition w_INCLUDE := of_string "INCLUDE".
 Definition w_EXPRESSION := of_string "EXPRESSION".
 Definition w_STRINGLITERAL := of_string "STRINGLITERAL".
 
+Definition placeholder (w : str) (i : N) : str := w ++ pad6 i.
+
 Inductive ph_kind := PhBlock | PhInclude | PhLine.
 Definition ph_kind_of (k : key) : option ph_kind :=
   match k with
